@@ -127,8 +127,8 @@ pub(crate) async fn forward(rx: &mut super::Receiver, tx: &mut super::Sender) ->
                             let id = req.id();
                             match connect.await {
                                 Ok((out_tx, out_rx)) => {
-                                    let in_port = out_tx.port_allocator().allocate().await;
-                                    match req.accept_from(in_port).await {
+                                    // The local port of the request belongs to the multiplexer it was received on.
+                                    match req.accept().await {
                                         Ok((in_tx, in_rx)) => {
                                             spawn_forward(id, out_rx, in_tx);
                                             spawn_forward(id, in_rx, out_tx);
